@@ -100,9 +100,12 @@ class RdmWorld(World):
         if not cfg.get("uhf") and any(x["kind"] == "ccsd" and x["e"] is not None for x in self.solvers) and rng.random() < 0.25:
             # the user rotates two molecular orbitals of the (long-lived) molecule in place and runs the solvers again
             return {"k": "rotate_mo", "i": rng.randrange(64), "j": rng.randrange(64), "angle": rng.choice([math.pi / 2, 0.3, -0.8, 1.1])}
+        if e.get("scribbled") and rng.random() < 0.8:
+            # the caller has just overwritten the arrays it was handed: ask the same question again
+            return {"k": "rdm", "i": i, "seed": rng.randrange(10 ** 9), "sum_spin": True, "mode": "same_again"}
         w = [("rdm", 4.0), ("simulate", 1.0)]
         if e["last"] is not None:
-            w += [("pad", 2.0), ("scribble", 1.2)]
+            w += [("pad", 2.0), ("scribble", 2.0)]
         if e["kind"] == "vqe" and cfg["shots"] is not None and e["have_freqs"]:
             w += [("resample", 2.5)]
         x = rng.random() * sum(v for _, v in w)
